@@ -74,7 +74,12 @@ ASSUMPTIONS = [
     "native target: clang-14 libFuzzer/ASan/UBSan runtime; long double reference sums",
     "permanent_laplace: entries with column multiplicity 0 are unspecified and not compared",
 ]
-FLOORS = {"mult_gt1": 0.15, "layout_noncontig": 0.10, "overload_32bit": 0.08}
+FLOORS = {"mult_gt1": 0.10, "overload_32bit": 0.08}
+# Debug / sensitivity aid: C04_PARTS=perm,native restricts the run to the named parts (the
+# parts are independent: own Hypothesis seeds, own budgets), floors are then not applicable.
+_ONLY_PARTS = [p for p in os.environ.get("C04_PARTS", "").split(",") if p]
+if _ONLY_PARTS:
+    FLOORS = {}
 
 K_TOL = 64.0
 U64 = 2.0 ** -53
@@ -687,6 +692,24 @@ def prop_haf(case, ctx):
                     f"{name} occ={o} dtype={dtype} layout={layout} fam={case['fam']}")
 
 
+def _warm_haf():
+    """Compile (or load from numba's cache) every specialisation the part uses *before* the
+    part's time budget starts: a cold numba cache must not eat the search budget."""
+    occ = np.array([1, 1], dtype=np.int64)
+    A = build_symmetric("gauss", 2, 1, 1.0)
+    dg = np.array([0.5, 0.25], dtype=np.complex128)
+    for lay in ("C", "F", "strided"):
+        M = apply_layout(A, lay)
+        dv = apply_layout(dg, lay if lay == "strided" else "C")
+        hafnian_with_reduction(M, occ)
+        loop_hafnian_with_reduction(M, dv, occ)
+        hafnian_with_reduction_batch(M, occ, 3)
+        loop_hafnian_with_reduction_batch(M, dv, occ, 3)
+    R = np.ascontiguousarray(A.real)
+    hafnian_with_reduction(R, occ)
+    loop_hafnian_with_reduction(R, dg.real.copy(), occ)
+
+
 @st.composite
 def occupation_pattern(draw, batch=False):
     style = draw(st.sampled_from(["many", "many", "few", "few", "pair", "zero", "single"]))
@@ -984,22 +1007,29 @@ def run_jax(ctx, tier):
 # =====================================================================================
 
 def parts(tier):
+    all_parts = _all_parts(tier)
+    if _ONLY_PARTS:
+        return [p for p in all_parts if p.name in _ONLY_PARTS]
+    return all_parts
+
+
+def _all_parts(tier):
     return [
         Part("oracle_selfcheck", prop_selfcheck, kind="enum", cases=selfcheck_cases),
         Part("perm_int_overflow", prop_perm_overflow, kind="enum", cases=overflow_cases),
         Part("perm", prop_perm, strategy=perm_cases(),
              examples={"quick": 2400, "thorough": 60000},
-             budget_s={"quick": 100, "thorough": 3000}),
-        Part("haf", prop_haf, strategy=haf_cases(),
+             budget_s={"quick": 70, "thorough": 3000}),
+        Part("haf", prop_haf, strategy=lambda tier: (_warm_haf(), haf_cases())[1],
              examples={"quick": 1600, "thorough": 40000},
-             budget_s={"quick": 100, "thorough": 3000}),
+             budget_s={"quick": 60, "thorough": 3000}),
         Part("tor", prop_tor, strategy=tor_cases(),
              examples={"quick": 1200, "thorough": 30000},
-             budget_s={"quick": 60, "thorough": 2000}),
+             budget_s={"quick": 30, "thorough": 2000}),
         Part("pf", prop_pf, strategy=pf_cases(),
              examples={"quick": 1200, "thorough": 30000},
-             budget_s={"quick": 40, "thorough": 1500}),
+             budget_s={"quick": 25, "thorough": 1500}),
         Part("jax", prop_jax, kind="custom", run=run_jax, only_shard0=True,
-             budget_s={"quick": 60, "thorough": 600}),
+             budget_s={"quick": 45, "thorough": 600}),
         *c04_native.parts(tier),
     ]
